@@ -29,7 +29,9 @@ ASSUMPTIONS = ['pandas: Index.intersection/union of sorted DatetimeIndexes are t
                'READING of clause 2 ("at each surviving timestamp a series keeps exactly its original value"): it is read for VALUES - a NaN cell held at a surviving '
                'timestamp is not an observation; with a fill method it is filled like a timestamp the series lacked (the code reindexes `_nona(ts)`; df_reindex(x, x.index, "ffill") '
                'equals df_fillna(x, "ffill"), not x: theorems reindex_fill_own_nan, reindex_own_index_ffill/_bfill, law-reindex-own-index); without a fill method the NaN stays. '
-               'Non-NaN cells are kept under every method (reindex_keep, reindex_fill_keeps)']
+               'Non-NaN cells are kept under every method (reindex_keep, reindex_fill_keeps)',
+               'containers (rounds i4 / j4): list / tuple / dict and - tags DS / DD - instances of a dict SUBCLASS and collections.defaultdict, which `_list` opens and `loops` does not (known finding C03-S1, matcher dict_subclass_left_unaligned); presync lines with subclass containers are not generated. An explicit index is given as pd.Index / Series / dict(index=..): the LIST and ndarray spellings raise or work depending on the data (`df_reindex(a, [d1, d2])` works for one series, `df_reindex([a, b], [d1, d2])` raises - loops splits the list) and are outside these three spellings; intraday stamps and `pd.Series([], dtype=float)` members are not generated (probed: outer gives all-NaN on the datetime index, inner empty)',
+               "presync policy words (round k4, review v4 2.2): since repo fix fa3eb5f (C03-W1) inner / outer / left / right / ij / oj / lj / rj always mean the policy, whatever the parameters of the decorated function are called (presyncw lines: names left / right / inner / outer / x / y, policy as word, attribute or default); any OTHER string that names a parameter selects that argument's index (presyncn lines, names p0..p3). presync with columns != False is sampled (law-presync-columns) and, for pointwise functions, proved under C08 (binopFG_value); the ORDER of aligned columns is compared as a set"]
 S = 4
 nan = float('nan')
 VALS = [1.0, 2.0, 0.0, -1.5, 0.25, 3.0, 7.75, -4.0, 10.0, 20.5]
@@ -284,6 +286,15 @@ def generate(rng, tier):
             if rng.random() < 0.3:
                 args[0] = [args[0], rand_series(rng, rand_days(rng, 'overlap', []), 0.3)]
             yield dict(tag='presync/%d/%s/%s' % (k, how, m), lines=['(align presync %s %s %s)' % (enc_tree(tuple(args)), how, m)])
+    # the policy as a WORD / attribute / default, the function's parameters named like policy words (review v4 2.2)
+    for _ in range(80 if tier == 'quick' else 1500):
+        args = [rand_series(rng, rand_days(rng, 'overlap', []), 0.2), rand_series(rng, rand_days(rng, 'overlap', []), 0.2)]
+        if rng.random() < 0.15:
+            args[rng.randrange(2)] = rng.choice([1, 2.5, None])
+        k, how, m = rng.randrange(len(WNAMES)), rng.choice(HOWS), rng.choice(METHODS)
+        sp = rng.choice(['word', 'attr'] + (['default'] if how == 'ij' else []))
+        yield dict(tag='presyncw/%s/%s/%s' % ('+'.join(WNAMES[k]), how, sp),
+                   lines=['(align presyncw %s I:%d %s %s %s)' % (enc_tree(tuple(args)), k, how, sp, m)])
     # presync(f)(*args, columns=False, **kwargs): Series, one- and multi-column frames, scalars, nested lists / dicts, keywords
     for _ in range(150 if tier == 'quick' else 4000):
         case = gen_presynck(rng)
@@ -455,6 +466,12 @@ def gen_presynck(rng, m=None):
 
 # ------------------------------------------------------------------ implementation runner
 
+# parameter names that are also presync's policy words (review v4 2.2): `.lj` IS join='left', and a string that names a parameter used
+# to be read as "the index of that argument" before it was read as a policy
+WNAMES = [('left', 'right'), ('right', 'left'), ('x', 'left'), ('right', 'y'), ('inner', 'y'), ('x', 'outer'), ('outer', 'inner'), ('a', 'b')]
+POLICY_WORD = {'ij': 'inner', 'oj': 'outer', 'lj': 'left', 'rj': 'right'}
+
+
 def _f2(a, b):
     return (a, b)
 
@@ -566,6 +583,19 @@ def run_line(state, sx):
         if isinstance(ix, (int, np.integer)):
             return 'ok I:%d' % ix
         return 'ok (L%s)' % ''.join(' ' + W.enc_t(t) for t in ix)
+    elif op == 'presyncw':
+        if not isinstance(tree, tuple) or len(tree) != 2:
+            return 'bad-op'
+        names, how, sp = WNAMES[int(args[1][2:])], args[2], args[3]
+        f = pyg_base.presync(eval('lambda %s, %s: (%s, %s)' % (names + names)))
+        if sp == 'word':
+            res = f(*tree, join=POLICY_WORD[how], method=dec_method(args[4]))
+        elif sp == 'attr':
+            res = getattr(f, how)(*tree, method=dec_method(args[4]))
+        elif sp == 'default' and how == 'ij':
+            res = f(*tree, method=dec_method(args[4]))
+        else:
+            return 'bad-op'
     elif op == 'presync':
         if not isinstance(tree, tuple) or len(tree) not in (2, 3):
             return 'bad-op'
